@@ -69,7 +69,7 @@ def _family_event(g, rnd, task, k):
                 for _ in range(6):
                     b[rnd.randrange(len(b))] = rnd.getrandbits(8)
         if opts.get('hi') and len(st['mem']['base']) > 1 and rnd.random() < 0.3:
-            off = rnd.randrange(0, 60) * 4
+            off = rnd.randrange(0, 60) * 4 + (2 if thumb and rnd.random() < 0.5 else 0)
             st['R']['PC'] = limbs(0xFFFFFF00 + off)
             C.put_instr(st, off, w, thumb, dev=1)
         else:
